@@ -48,6 +48,9 @@ def run(ctx) -> None:
     from . import c08
 
     ctx.guard("C15.slice-zero", slice_zero)
+    from .common import memo_rule
+
+    ctx.guard("C15.instance-state", memo_rule, "C15.instance-state", ("transform.py",))
     ctx.reuse("C15.helpers", c08.id_templates)
     ctx.reuse("C15.helpers", c08.grid_construction)
 
@@ -314,6 +317,33 @@ def shape_rule(ctx, short: str) -> None:
                     empty_case = True
             if not uses and not opaque and not empty_case:
                 blind.append(rn_)
+        # a shortcut that hands back the wells as given claims that the transform is the identity there: true for a shifter whose
+        # offset is (0, 0) - both components - and for nothing else
+        selfn_ = f.params[0]
+        for rn_ in rets:
+            v_ = strip_norm(fv.res.resolve(rn_.ast.value, rn_.id))
+            while isinstance(v_, ast.Call) and call_fname(v_) in ("array", "asarray", "copy") and v_.args:
+                v_ = strip_norm(v_.args[0])
+            if not is_name(v_, arg):
+                continue
+            atoms_ = [(r_, p_) for r_, p_, _b in fv.atoms_at(rn_.id)]
+
+            def zero(attr):
+                for r_, p_ in atoms_:
+                    if attr_of_name(r_, selfn_, attr) and not p_:
+                        return True
+                    if isinstance(r_, ast.Compare) and len(r_.ops) == 1 and attr_of_name(r_.left, selfn_, attr) and isinstance(r_.comparators[0], ast.Constant) and r_.comparators[0].value == 0 \
+                            and ((isinstance(r_.ops[0], ast.Eq) and p_) or (isinstance(r_.ops[0], ast.NotEq) and not p_)):
+                        return True
+                return False
+
+            empty_ = any((isinstance(r_, ast.Compare) and len(r_.ops) == 1 and isinstance(r_.ops[0], ast.Eq) and p_ and isinstance(r_.comparators[0], ast.Constant) and r_.comparators[0].value == 0
+                          and ((isinstance(r_.left, ast.Attribute) and r_.left.attr == "size") or call_fname(r_.left) == "len")) for r_, p_ in atoms_)
+            if empty_ or (short.startswith("WellShifter.") and zero("dr") and zero("dc")):
+                continue
+            ctx.rep.refuted(rule, c + "/shortcut", f"`{stmt_key(rn_.ast)[:60]}` hands the wells back untransformed; that is the image only when the transform is the identity (a shifter with offset "
+                            "(0, 0)), which the conditions of this return do not establish (e.g. an anchor in row A or column 01 has one zero component)", where=f.where(rn_.ast))
+            return
         if blind and len(blind) < len(rets):
             rn_ = blind[0]
             conds = [show(r)[:50] for r, pol, br in fv.atoms_at(rn_.id)][:3]
